@@ -42,6 +42,8 @@ pub fn test_solution(pred_data: Vec<Vec<W>>) -> Solution {
 // ---------------------------------------------------------------------------------------------
 // Mock state: total map with lexicographic key successor (the convention of the repo's tests).
 
+pub const MOCK_RANGE_CAP: usize = 20_000;
+
 pub type StateMap = BTreeMap<([u8; 32], Vec<W>), Vec<W>>;
 
 pub fn next_key(mut k: Vec<W>) -> Option<Vec<W>> {
@@ -68,7 +70,8 @@ pub fn map_key_range(
     }
     let mut out = vec![];
     let mut k = Some(key.to_vec());
-    for _ in 0..n {
+    // a state never holds more than this many consecutive keys (more than fits into VM memory)
+    for _ in 0..n.min(MOCK_RANGE_CAP) {
         let Some(kk) = k else { break };
         out.push(m.get(&(contract, kk.clone())).cloned().unwrap_or_default());
         k = next_key(kk);
@@ -196,31 +199,55 @@ pub fn real_vm_from(r: &RVm) -> Vm {
 /// Number of entries of the repeat stack, read structurally from its `Debug` rendering
 /// (first bracketed list, top-level elements). `None` if the rendering has no list.
 pub fn repeat_depth(r: &Repeat) -> Option<usize> {
-    let s = format!("{r:?}");
-    let start = s.find('[')?;
-    let mut depth = 0i32;
-    let mut elems = 0usize;
-    let mut nonempty = false;
-    for ch in s[start..].chars() {
-        match ch {
-            '[' | '{' | '(' => {
-                depth += 1;
-                if depth > 1 {
-                    nonempty = true;
+    use std::fmt::Write;
+    /// Counts the top-level elements of the first bracketed list without building a string.
+    #[derive(Default)]
+    struct Counter {
+        started: bool,
+        done: bool,
+        depth: i32,
+        elems: usize,
+        nonempty: bool,
+    }
+    impl Write for Counter {
+        fn write_str(&mut self, s: &str) -> std::fmt::Result {
+            if self.done {
+                return Ok(());
+            }
+            for ch in s.chars() {
+                if !self.started {
+                    if ch == '[' {
+                        self.started = true;
+                        self.depth = 1;
+                    }
+                    continue;
+                }
+                match ch {
+                    '[' | '{' | '(' => {
+                        self.depth += 1;
+                        self.nonempty = true;
+                    }
+                    ']' | '}' | ')' => {
+                        self.depth -= 1;
+                        if self.depth == 0 {
+                            self.done = true;
+                            return Ok(());
+                        }
+                    }
+                    ',' if self.depth == 1 => self.elems += 1,
+                    c if !c.is_whitespace() && self.depth == 1 => self.nonempty = true,
+                    _ => {}
                 }
             }
-            ']' | '}' | ')' => {
-                depth -= 1;
-                if depth == 0 {
-                    return Some(if nonempty { elems + 1 } else { 0 });
-                }
-            }
-            ',' if depth == 1 => elems += 1,
-            c if !c.is_whitespace() && depth == 1 => nonempty = true,
-            _ => {}
+            Ok(())
         }
     }
-    None
+    let mut c = Counter::default();
+    let _ = write!(c, "{r:?}");
+    if !c.done {
+        return None;
+    }
+    Some(if c.nonempty { c.elems + 1 } else { 0 })
 }
 
 /// What of a real VM configuration is compared with the reference.
@@ -412,7 +439,7 @@ pub fn run_ref(init: &RVm, prog: &dyn RefProg, env: &ProgEnv) -> RefOut {
 
 /// Compare a real outcome with the reference outcome. `None` = agree (or masked).
 /// Returns (clause, detail).
-pub fn compare(real: &RealOut, rf: &RefOut, rep_masks: &mut dyn FnMut(&str)) -> Option<(String, String)> {
+pub fn compare(real: &RealOut, rf: &RefOut, at_compute: &dyn Fn(usize) -> bool, rep_masks: &mut dyn FnMut(&str)) -> Option<(String, String)> {
     match (&rf.res, real) {
         (_, RealOut::Panic { site, msg }) => Some(("no_panic".into(), format!("{site}: {msg}"))),
         (Err(e), _) if matches!(e.kind, RErr::Unspecified(_)) => {
@@ -448,6 +475,12 @@ pub fn compare(real: &RealOut, rf: &RefOut, rep_masks: &mut dyn FnMut(&str)) -> 
                 ));
             }
             match (&e.kind, oog) {
+                (RErr::OutOfGas, false) | (RErr::Fail, true) if at_compute(*index) => {
+                    // children run concurrently with the remaining budget: which child's
+                    // failure (out of gas / op error) surfaces is not specified
+                    rep_masks("error class of a failing Compute");
+                    None
+                }
                 (RErr::OutOfGas, false) => Some(("gas.oog_class".into(), "reference: out of gas / real: other error".into())),
                 (RErr::Fail, true) => Some(("gas.oog_class".into(), "reference: op error / real: out of gas".into())),
                 (RErr::State(s), _) => {
